@@ -473,10 +473,11 @@ class Ctx:
             return None
         # prefer a witness in which every decided comparison (and the violation
         # itself) holds with a visible margin: survives float replay and float32 Skia
-        if isinstance(t, z3.ExprRef):
+        if True:
+            extra_ = z3.Not(t) if isinstance(t, z3.ExprRef) else None
             for eps in ("1", "1/100"):
                 try:
-                    rm = interior_model(self.assertions, eps, extra=z3.Not(t), timeout=2000)
+                    rm = interior_model(self.assertions, eps, extra=extra_, timeout=2000)
                 except z3.Z3Exception:
                     rm = None
                 if rm is not None:
